@@ -7,6 +7,6 @@ for d in */; do
   prop=${d%%-*}
   p=$d/patch.diff
   [ -f $d/patch.rebased.diff ] && p=$d/patch.rebased.diff
-  if ! /verif/bin/upfcheck -list | grep -qw $prop; then echo "NO-CHECK  $prop  $d"; continue; fi
+  if [ $prop != C20 ] && ! /verif/bin/upfcheck -list | grep -qw $prop; then echo "NO-CHECK  $prop  $d"; continue; fi
   MUT_LINES=2 /verif/scripts/mut.sh $p $prop 2>&1 | grep -E "^(DETECTED|MISSED|UNDECIDED|PATCH-FAILED)|rule=" | tr '\n' ' ' ; echo
 done
